@@ -333,6 +333,21 @@ func (a *Auth) addUser(u *webUser, password string) (err error) {
 	return nil
 }
 
+// removeUser removes the most recently added user with the given login, if
+// there is one.
+func (a *Auth) removeUser(login string) {
+	a.lock.Lock()
+	defer a.lock.Unlock()
+
+	for i := len(a.users) - 1; i >= 0; i-- {
+		if a.users[i].Name == login {
+			a.users = append(a.users[:i], a.users[i+1:]...)
+
+			return
+		}
+	}
+}
+
 // findUser returns a user if there is one.
 func (a *Auth) findUser(login, password string) (u webUser, ok bool) {
 	a.lock.Lock()
